@@ -2,7 +2,7 @@
 //! objects, transitions are real calls of the public modifications with all valid arguments.
 //! Serves C09 (caches), C10 (structural invariants), C13 (effect and frame of each step).
 use crate::arena::Arena;
-use crate::canon::{caches_key, schedule_key};
+use crate::canon::{caches_key, ranked_key, schedule_key};
 use crate::evidence::*;
 use crate::sched_ops::*;
 use crate::sched_oracles::*;
@@ -43,7 +43,7 @@ pub fn plans(tier: &str) -> Vec<Bounds> {
         vec![
             Bounds { name: "wide-depth3", depth: 3, arenas: vec![0, 1, 2, 3, 4], menu: menu(2, true, true, 3) },
             Bounds { name: "plain-paths-depth4", depth: 4, arenas: vec![0, 1, 2, 3, 4], menu: menu(2, false, false, 3) },
-            Bounds { name: "single-nodes-depth5", depth: 5, arenas: vec![0, 1], menu: menu(1, false, false, 3) },
+            Bounds { name: "single-nodes-depth5", depth: 5, arenas: vec![0], menu: menu(1, false, false, 3) },
         ]
     } else {
         vec![
@@ -71,6 +71,22 @@ pub fn plans(tier: &str) -> Vec<Bounds> {
 
 pub fn initial_states(a: &Arena) -> Vec<(&'static str, Schedule)> {
     a.inits.clone()
+}
+
+/// concurrent set of state keys (64 shards): successors are de-duplicated the moment they are generated,
+/// so a level never holds more than its distinct states in memory
+pub struct Seen {
+    shards: Vec<std::sync::Mutex<HashSet<u128>>>,
+}
+
+impl Seen {
+    pub fn new() -> Seen {
+        Seen { shards: (0..64).map(|_| std::sync::Mutex::new(HashSet::new())).collect() }
+    }
+    /// true if the key was new
+    pub fn insert(&self, k: u128) -> bool {
+        self.shards[(k as usize) % 64].lock().unwrap().insert(k)
+    }
 }
 
 fn key128(s: &str) -> u128 {
@@ -133,7 +149,7 @@ fn check_step(prop: &str, a: &Arena, arena_id: usize, pre: Option<(&Schedule, &R
 }
 
 pub fn explore(prop: &str, a: &Arena, arena_id: usize, b: &Bounds, stats: &mut Stats, found: &mut Vec<Found>) {
-    let mut seen: HashSet<u128> = HashSet::new();
+    let seen = Seen::new();
     let mut frontier: Vec<Item> = vec![];
     for (name, s) in initial_states(a) {
         let mut st = Stats::default();
@@ -142,7 +158,7 @@ pub fn explore(prop: &str, a: &Arena, arena_id: usize, b: &Bounds, stats: &mut S
         }
         stats.differential_checked += st.differential_checked;
         stats.differential_skipped += st.differential_skipped;
-        if seen.insert(key128(&schedule_key(&s))) {
+        if seen.insert(key128(&ranked_key(&s))) {
             frontier.push(Item { s, init: name, history: vec![] });
         }
     }
@@ -155,14 +171,15 @@ pub fn explore(prop: &str, a: &Arena, arena_id: usize, b: &Bounds, stats: &mut S
         }
         let last_level = depth + 1 == b.depth;
         let chunk = (frontier.len() + nthreads - 1) / nthreads;
-        let results: Vec<(Vec<(u128, Item)>, Vec<u128>, Stats, Vec<Found>)> = std::thread::scope(|sc| {
+        let seen_ref = &seen;
+        let results: Vec<(Vec<Item>, usize, Stats, Vec<Found>)> = std::thread::scope(|sc| {
             let handles: Vec<_> = frontier
                 .chunks(chunk.max(1))
                 .map(|items| {
                     sc.spawn(move || {
                         crate::pool::install_panic_recorder_thread();
-                        let mut out: Vec<(u128, Item)> = vec![];
-                        let mut out_keys: Vec<u128> = vec![];
+                        let mut out: Vec<Item> = vec![];
+                        let mut new_last: usize = 0;
                         let mut st = Stats::default();
                         let mut fnd: Vec<Found> = vec![];
                         for it in items {
@@ -194,13 +211,15 @@ pub fn explore(prop: &str, a: &Arena, arena_id: usize, b: &Bounds, stats: &mut S
                                                 fnd.push(Found { arena: arena_id, init: it.init, history: h, clause: c, detail: d });
                                             }
                                         }
-                                        if last_level {
-                                            // states of the last level are only counted, never expanded
-                                            out_keys.push(key128(&k));
-                                        } else {
-                                            let mut h = it.history.clone();
-                                            h.push(op.clone());
-                                            out.push((key128(&k), Item { s: n, init: it.init, history: h }));
+                                        if seen_ref.insert(key128(&ranked_key(&n))) {
+                                            if last_level {
+                                                // states of the last level are only counted, never expanded
+                                                new_last += 1;
+                                            } else {
+                                                let mut h = it.history.clone();
+                                                h.push(op.clone());
+                                                out.push(Item { s: n, init: it.init, history: h });
+                                            }
                                         }
                                     }
                                     StepResult::Err(_) => {
@@ -226,7 +245,7 @@ pub fn explore(prop: &str, a: &Arena, arena_id: usize, b: &Bounds, stats: &mut S
                                 }
                             }
                         }
-                        (out, out_keys, st, fnd)
+                        (out, new_last, st, fnd)
                     })
                 })
                 .collect();
@@ -234,12 +253,8 @@ pub fn explore(prop: &str, a: &Arena, arena_id: usize, b: &Bounds, stats: &mut S
         });
         let mut next: Vec<Item> = vec![];
         let mut last_new = 0usize;
-        for (out, out_keys, st, fnd) in results {
-            for k in out_keys {
-                if seen.insert(k) {
-                    last_new += 1;
-                }
-            }
+        for (out, new_last, st, fnd) in results {
+            last_new += new_last;
             stats.transitions += st.transitions;
             stats.rejected += st.rejected;
             stats.panics += st.panics;
@@ -254,11 +269,7 @@ pub fn explore(prop: &str, a: &Arena, arena_id: usize, b: &Bounds, stats: &mut S
                 x.2 += p;
             }
             found.extend(fnd);
-            for (k, item) in out {
-                if seen.insert(k) {
-                    next.push(item);
-                }
-            }
+            next.extend(out);
         }
         stats.states += next.len() + last_new;
         stats.states_per_depth.push(next.len() + last_new);
@@ -338,8 +349,9 @@ pub fn check(prop: &str, tier: &str) -> i32 {
     let mut found: Vec<Found> = vec![];
     let mut arenas: Vec<Arena> = vec![];
     let mut per_arena = vec![];
-    let runs = if tier == "thorough" { 2 } else { 1 };
-    for b in &plans {
+    for (pi, b) in plans.iter().enumerate() {
+        // determinism cross-check (same exploration twice, identical counts) on the first plan of the thorough tier
+        let runs = if tier == "thorough" && pi == 0 { 2 } else { 1 };
         for &i in &b.arenas {
             if !arenas.iter().any(|a| a.name == ARENAS[i].name) {
                 arenas.push(load_arena(i));
@@ -443,7 +455,7 @@ pub fn check(prop: &str, tier: &str) -> i32 {
         report.cov("tour_differential_skipped_no_scratch_twin", json!(total.differential_skipped));
     }
     report.cov("exhaustive", json!(true));
-    report.cov("runs_compared", json!(runs));
+    report.cov("runs_compared", json!(if tier == "thorough" { "first plan explored twice, identical state and transition counts required" } else { "single run" }));
     let sample_arena = &arenas[0];
     let sample_ops: Vec<Value> = enumerate(sample_arena, &initial_states(sample_arena)[1].1, &b.menu).iter().take(6).map(|o| o.to_json(sample_arena)).collect();
     report.cov("samples", json!([{"arena": sample_arena.name, "initial_state": "min_cost_flow", "first_operations_of_the_menu": sample_ops}]));
